@@ -288,3 +288,25 @@ func VH_C13_varchain(kind int) {
 	vhCanary(env, in)
 	vreach("end")
 }
+
+// VH_C13_actionless: a fact that is shaped like a rule but is not one the rule decoder
+// accepts (no action, or an action of the wrong kind) is stored through the fact API with a
+// when that matches ordinary events. Events that match it are still processed: the other
+// rules run.
+func VH_C13_actionless(kind, odd int) {
+	env, in := vhC13Env(kind)
+	var body map[string]interface{}
+	when := map[string]interface{}{"pattern": map[string]interface{}{"zz": "?v"}}
+	switch odd {
+	case 0:
+		body = map[string]interface{}{"when": when}
+	case 1:
+		body = map[string]interface{}{"when": when, "action": float64(5)}
+	case 2:
+		body = map[string]interface{}{"when": when, "actions": "none"}
+	}
+	p := vhTry(func() { env.loc.AddFact(env.ctx, "odd", Map{"rule": body}) })
+	vassert(!p, "no-panic")
+	vhCanary(env, in)
+	vreach("end")
+}
